@@ -174,6 +174,15 @@ theorem C15_accepts_only_bindable (env : Env) (spec : ArgSpec) (hwf : WF spec) (
   refine ⟨b, ?_, h2⟩
   simp [callPosOf, callKwOf, hs, h1]
 
+/-- **C15_delivered_binds.**  What the parser delivers is itself a valid call:
+    `f(*args, **kwargs)` binds under Python's semantics, with every positional
+    parameter filled positionally. -/
+theorem C15_delivered_binds (env : Env) (spec : ArgSpec) (hwf : WF spec) (argv : List Str) (stdin : Str) (mode : Mode)
+    (a : List Val) (k : List (Str × Val)) (h : parseAutoApply env spec argv stdin mode = .ok (a, k)) :
+    spec.args.length ≤ a.length ∧ ∃ b, pyBind spec Val.dflt a k = .ok b := by
+  obtain ⟨p, occ, hs, hb⟩ := parse_ok h
+  exact delivered_binds env spec hwf p (dictOf occ) (scan_keysOk env spec mode argv stdin p occ hs) a k hb
+
 /-- **C15_rejects_ambiguous.**  After any well-formed beginning, an option whose
     name is not a parameter name and is a prefix of two or more parameters is
     rejected as ambiguous — never guessed, never bound — whatever follows. -/
